@@ -3,6 +3,7 @@ package main
 import (
 	"fmt"
 	"go/ast"
+	"go/token"
 	"go/types"
 	"sort"
 	"strings"
@@ -36,6 +37,9 @@ var detFuncs = map[string]bool{
 	"strings.LastIndex": true, "strings.IndexByte": true, "strings.ContainsRune": true, "strings.ContainsAny": true,
 	"crypto/sha256.Sum256": true, "bytes.Equal": true, "math.Pow": true, "math.Floor": true, "math.Ceil": true,
 	"strconv.Quote": true, "strconv.ParseFloat": true, "strconv.ParseBool": true,
+	// time.Time / time.Duration arithmetic is a function of its operands (time.Now / time.Since are not)
+	"time.Sub": true, "time.Add": true, "time.IsZero": true, "time.Before": true, "time.After": true, "time.Equal": true,
+	"time.Unix": true, "time.UnixNano": true, "time.Seconds": true, "time.Compare": true,
 }
 
 func (x *Exec) isModuleFunc(fn *ssa.Function) bool {
@@ -83,7 +87,12 @@ func funcRelName(fn *ssa.Function) string {
 
 func (x *Exec) contractFor(fn *ssa.Function) *Contract {
 	key := funcPkgPath(fn) + "::" + funcRelName(fn)
-	return x.e.cs.Funcs[key]
+	ct := x.e.cs.Funcs[key]
+	if ct != nil && !ct.IsIface && !x.e.usable(ct) {
+		x.c.Note("contract of %s does not fit the function's current signature: ignored at this call site (callee followed or havocked)", ct.Name)
+		return nil
+	}
+	return ct
 }
 
 func (x *Exec) ifaceContract(recvType types.Type, method string) *Contract {
@@ -132,6 +141,16 @@ func (x *Exec) instrEffects(ins ssa.Instruction, depth int) *Effects {
 		eff.add(x.callEffects(&i.Call, depth))
 	case *ssa.Go:
 		// not followed
+	case *ssa.Select:
+		for _, cs := range i.States {
+			if n := chanName(cs.Chan); n != "" && cs.Dir == types.RecvOnly {
+				eff.Ghosts["recv$"+n] = true
+			}
+		}
+	case *ssa.UnOp:
+		if n := chanName(i.X); n != "" && i.Op == token.ARROW {
+			eff.Ghosts["recv$"+n] = true
+		}
 	case *ssa.Alloc, *ssa.MakeMap:
 		// allocation initialises a fresh object only
 	}
@@ -233,8 +252,40 @@ func (x *Exec) callEffects(cc *ssa.CallCommon, depth int) *Effects {
 		return eff
 	}
 	// call through a function value
+	if ct, _ := x.callbackContract(cc); ct != nil {
+		x.assignsEffects(ct, eff, nil)
+		return eff
+	}
 	x.unknownEffects(cc, eff)
 	return eff
+}
+
+// callbackContract: the contract declared with `callback T.f` for a call through
+// the function value loaded from field f of a struct of named type T; also
+// returns the address expression of the struct (the contract's `recv`).
+func (x *Exec) callbackContract(cc *ssa.CallCommon) (*Contract, ssa.Value) {
+	u, ok := cc.Value.(*ssa.UnOp)
+	if !ok || u.Op != token.MUL {
+		return nil, nil
+	}
+	fa, ok := u.X.(*ssa.FieldAddr)
+	if !ok {
+		return nil, nil
+	}
+	pt, ok := fa.X.Type().Underlying().(*types.Pointer)
+	if !ok {
+		return nil, nil
+	}
+	n, ok := types.Unalias(pt.Elem()).(*types.Named)
+	if !ok || n.Obj().Pkg() == nil {
+		return nil, nil
+	}
+	stt, ok := n.Underlying().(*types.Struct)
+	if !ok {
+		return nil, nil
+	}
+	key := n.Obj().Pkg().Path() + "::" + n.Obj().Name() + "." + stt.Field(fa.Field).Name()
+	return x.e.cs.Funcs[key], fa.X
 }
 
 func (x *Exec) isLogPkg(pp string) bool {
@@ -269,6 +320,9 @@ func (x *Exec) unknownEffects(cc *ssa.CallCommon, eff *Effects) {
 // assignsEffects translates a contract's assigns clause into key prefixes
 // (coarse: the object type and field path, not the specific object).
 func (x *Exec) assignsEffects(ct *Contract, eff *Effects, fn *ssa.Function) {
+	for _, cl := range ct.Sets {
+		eff.Ghosts[cl.Label] = true
+	}
 	if !ct.HasAssigns {
 		// default: everything reachable from the parameters
 		var sig *types.Signature
@@ -419,12 +473,26 @@ func (x *Exec) ifaceMethodSig(ct *Contract) *types.Signature {
 	if len(parts) != 2 {
 		return nil
 	}
-	pkg := x.e.typesPkg(ct.PkgPath)
+	tp := ct.PkgPath
+	if ct.TypePkg != "" {
+		tp = ct.TypePkg
+	}
+	pkg := x.e.typesPkg(tp)
 	if pkg == nil {
 		return nil
 	}
 	obj := pkg.Scope().Lookup(parts[0])
 	if obj == nil {
+		return nil
+	}
+	if stt, isStruct := obj.Type().Underlying().(*types.Struct); isStruct {
+		// callback contract: the field's function type
+		for i := 0; i < stt.NumFields(); i++ {
+			if stt.Field(i).Name() == parts[1] {
+				sig, _ := stt.Field(i).Type().Underlying().(*types.Signature)
+				return sig
+			}
+		}
 		return nil
 	}
 	it, ok := obj.Type().Underlying().(*types.Interface)
@@ -549,6 +617,9 @@ func (x *Exec) callCommon(fr *frame, st *State, cc *ssa.CallCommon, args []Val, 
 			}
 			return x.inline(fn, args, fvs, st, reach, fr.depth+1)
 		}
+	}
+	if ct, recvAddr := x.callbackContract(cc); ct != nil {
+		return x.applyContract(ct, nil, sig, x.val(fr, recvAddr), args, st, reach, where)
 	}
 	x.havocCall(st, cc, "call through function value in "+fr.fn.String())
 	return x.freshResults(sig, "fv")
@@ -875,6 +946,7 @@ func (x *Exec) applyContract(ct *Contract, f *ssa.Function, sig *types.Signature
 					names[p.Name()] = x.topFrame.vals[p]
 				}
 			}
+			x.addFreeVarNames(names, st, reach)
 		}
 	}
 	pkg := x.e.typesPkg(ct.PkgPath)
@@ -893,6 +965,7 @@ func (x *Exec) applyContract(ct *Contract, f *ssa.Function, sig *types.Signature
 				scoped[p.Name()] = x.topFrame.vals[p]
 			}
 		}
+		x.addFreeVarNames(scoped, st, reach)
 	}
 	for k, cl := range ct.Req {
 		if !x.inScope(cl) {
@@ -942,6 +1015,13 @@ func (x *Exec) applyContract(ct *Contract, f *ssa.Function, sig *types.Signature
 			}
 			g := x.evalBool(cl.Expr, env2, reach)
 			x.assume(Imp(reach, g))
+		}
+	}
+	// ghost code of the callee (`sets ghost.X = expr`), evaluated in the post-state
+	for _, cl := range ct.Sets {
+		env2 := &specEnv{x: x, names: names, st: st, old: pre, pkg: pkg, results: res, sig: sig}
+		if gv, ok := st.ghost[cl.Label]; ok {
+			st.ghost[cl.Label] = x.materialize(x.evalSpec(cl.Expr, env2, reach), gv.T)
 		}
 	}
 	if wantSiteCovers && x.specDepth == 0 {
@@ -1149,9 +1229,48 @@ func (x *Exec) havocMapEntry(st *State, mt types.Type, ref, key Term) {
 		k := mapKey(mt, "v:"+l.Path)
 		arr := x.heapGet(st, k, SArr(SRef, SArr(ks[0].Sort, l.Sort)))
 		fv := x.c.Fresh("asg_mv", l.Sort)
-		if l.Sort == SRef {
+		if l.isRef() {
 			x.c.Assume(Op("bvult", SBool, fv, st.ctr))
 		}
 		x.heapSet(st, k, Store(arr, ref, Store(Select(arr, ref), key, fv)))
+	}
+}
+
+// chanName: the source name of a channel that is a parameter or a captured
+// variable of the enclosing function ("" otherwise); key of the lastrecv() ghost.
+func chanName(v ssa.Value) string {
+	if _, ok := v.Type().Underlying().(*types.Chan); !ok {
+		return ""
+	}
+	switch c := v.(type) {
+	case *ssa.Parameter:
+		return c.Name()
+	case *ssa.FreeVar:
+		return c.Name()
+	case *ssa.UnOp:
+		if fv, ok := c.X.(*ssa.FreeVar); ok && c.Op == token.MUL {
+			return fv.Name()
+		}
+	}
+	return ""
+}
+
+// addFreeVarNames: in a function literal under contract, the name of a captured
+// variable denotes its current value (the cell's content in st).
+func (x *Exec) addFreeVarNames(names map[string]Val, st *State, reach Term) {
+	if x.top == nil || x.topFrame == nil {
+		return
+	}
+	for _, fv := range x.top.FreeVars {
+		if _, shadow := names[fv.Name()]; shadow {
+			continue
+		}
+		v, ok := x.topFrame.vals[fv]
+		if !ok {
+			continue
+		}
+		if _, isPtr := fv.Type().Underlying().(*types.Pointer); isPtr {
+			names[fv.Name()] = x.load(st, x.toAddr(v), reach)
+		}
 	}
 }
